@@ -44,6 +44,7 @@ func runResolutionTLC(c *ev.Ctx, module, cfg string, timeout time.Duration) *res
 		if out.Cases[i].Res.Doc == nil {
 			out.Cases[i].Res.Doc = []int{}
 		}
+		out.Cases[i].Res.Ao = out.Cases[i].Ao
 	}
 	if int64(len(out.Cases)) != r.Distinct {
 		ev.Fatal("TLC %s/%s: %d distinct states but %d emitted cases", module, cfg, r.Distinct, len(out.Cases))
@@ -71,6 +72,8 @@ func classify(prefix string, e *Engine, ops []AnchOp, want, got View) string {
 		diff = "recovery-commitment"
 	case want.Uc != got.Uc:
 		diff = "update-commitment"
+	case want.Ao != nil && got.Ao != nil && *want.Ao != *got.Ao && fmt.Sprint(want.Doc) == fmt.Sprint(got.Doc):
+		diff = "anchor-origin"
 	default:
 		diff = "document"
 	}
